@@ -471,9 +471,10 @@ func c07Run(c *fw.Ctx) fw.Outcome {
 	data, stlOpen := c07RenderSource(r, src, cues)
 	otherData, _ := c07RenderSource(r, src2, other)
 	dir := c.TmpDir()
-	in := filepath.Join(dir, "in."+caseMix(r, src))
-	in2 := filepath.Join(dir, "in2."+caseMix(r, src2))
-	out := filepath.Join(dir, "out."+caseMix(r, dst))
+	// file names as they come: blanks, commas, brackets, a percent sign, letters beyond ASCII
+	in := filepath.Join(dir, fw.Pick(r, []string{"in", "in", "The Good, the Bad [en] 100%", "Épisode 1 (v2)"})+"."+caseMix(r, src))
+	in2 := filepath.Join(dir, fw.Pick(r, []string{"in2", "second, [x]"})+"."+caseMix(r, src2))
+	out := filepath.Join(dir, fw.Pick(r, []string{"out", "out", "seg_%03d, [final]", "été 50% off"})+"."+caseMix(r, dst))
 	os.WriteFile(in, data, 0o644)
 	os.WriteFile(in2, otherData, 0o644)
 	out = outPath(r, "", out) // a fresh destination, or one that holds an earlier, much longer file
